@@ -8,155 +8,30 @@
 (* input, and what JqCore.Run says (outcome sequence, side channel, or     *)
 (* "outside the core").                                                    *)
 (***************************************************************************)
-EXTENDS JqCore, Json
+EXTENDS JqCoreUniv, Json
 CONSTANTS Shard, NShards,
           NIn,          \* inputs per program (0 = all)
-          Rot           \* rotation of the input choice (seed)
+          Rot,          \* rotation of the input choice and of the sample (seed)
+          Div           \* 1 = every (outer, position, inner) triple; d > 1 = the 1/d sample of the triples chosen by Rot
 VARIABLE c
-
-GenLit == StdLit
-Sa == JStr(<<97>>)  Sab == JStr(<<97, 98>>)  S0 == JStr(<<>>)
-O1(k, v) == JObjRaw(<<k>>, <<v>>)
-Inputs == << JNull, JFalse, JTrue, JNum(0), JNum(1), JNum(-1), JNum(2), S0, Sa, Sab, JArr(<<>>), JEmptyObj,
-             JArr(<<JNum(1)>>), JArr(<<JNum(0), JNum(1)>>), JArr(<<JNum(2), JNum(1), JNum(1)>>), JArr(<<Sa, Sab>>), JArr(<<JNull, JFalse>>),
-             JArr(<<JArr(<<>>)>>), JArr(<<JNum(1), JArr(<<JNum(2)>>)>>), JArr(<<JArr(<<JNum(1)>>), JArr(<<JNum(0)>>)>>),
-             JArr(<<O1(<<97>>, JNum(1)), O1(<<97>>, JNum(0))>>), JArr(<<JNum(-1), JNum(2)>>),
-             O1(<<97>>, JNum(1)), O1(<<97>>, JNull), JObjRaw(<<<<97>>, <<98>>>>, <<JNum(1), JNum(2)>>), O1(<<97>>, JArr(<<JNum(1)>>)),
-             O1(<<97>>, O1(<<98>>, JNum(0))), O1(<<98>>, Sa), JObjRaw(<<<<97>>, <<98>>>>, <<Sab, JArr(<<JNum(0), JNum(1)>>)>>),
-             JArr(<<JObjRaw(<<K_key, K_value>>, <<Sa, JNum(1)>>)>>) >>      \* from_entries-shaped; the only input outside JsonVals(2, StdAtoms)
-ASSUME \A i \in 1 .. (Len(Inputs) - 1) : InJsonVals(Inputs[i], 2, StdAtoms, 3, DefaultKeys) /\ WellFormed(Inputs[i])
-InputList == <<JNum(1), Sa>>          \* what input / inputs read
-
-N(s) == NumQ(s)
-ST(s) == StrQ(s)
-Fa == FieldQ("a")
-X == VarQ("$x")
-Plus1 == Bin("+", Ident, N("1"))
-(* constructs: [n |-> name, k |-> number of child positions]; Mk builds the tree from children *)
-Cons == <<
-  [n |-> ".", k |-> 0], [n |-> "..", k |-> 0], [n |-> "null", k |-> 0], [n |-> "true", k |-> 0], [n |-> "false", k |-> 0],
-  [n |-> "0", k |-> 0], [n |-> "1", k |-> 0], [n |-> "2", k |-> 0], [n |-> "-1", k |-> 0], [n |-> "\"\"", k |-> 0], [n |-> "\"a\"", k |-> 0], [n |-> "\"ab\"", k |-> 0],
-  [n |-> "[]", k |-> 0], [n |-> "{}", k |-> 0], [n |-> ".a", k |-> 0], [n |-> ".b", k |-> 0], [n |-> ".a?", k |-> 0], [n |-> ".\"a\"", k |-> 0], [n |-> ".[0]", k |-> 0], [n |-> ".[-1]", k |-> 0],
-  [n |-> ".[]", k |-> 0], [n |-> ".[]?", k |-> 0], [n |-> ".[1:]", k |-> 0], [n |-> ".[:1]", k |-> 0], [n |-> ".a.b", k |-> 0], [n |-> ".a[]", k |-> 0], [n |-> "{a}", k |-> 0],
-  [n |-> "empty", k |-> 0], [n |-> "error", k |-> 0], [n |-> "not", k |-> 0], [n |-> "length", k |-> 0], [n |-> "keys", k |-> 0], [n |-> "type", k |-> 0], [n |-> "add", k |-> 0],
-  [n |-> "tostring", k |-> 0], [n |-> "tojson", k |-> 0], [n |-> "fromjson", k |-> 0], [n |-> "explode", k |-> 0], [n |-> "implode", k |-> 0],
-  [n |-> "to_entries", k |-> 0], [n |-> "from_entries", k |-> 0], [n |-> "sort", k |-> 0], [n |-> "unique", k |-> 0], [n |-> "min", k |-> 0], [n |-> "max", k |-> 0],
-  [n |-> "first", k |-> 0], [n |-> "last", k |-> 0], [n |-> "paths", k |-> 0], [n |-> "input", k |-> 0], [n |-> "inputs", k |-> 0], [n |-> "debug", k |-> 0], [n |-> "stderr", k |-> 0],
-  [n |-> "recurse", k |-> 0], [n |-> "values", k |-> 0], [n |-> "reverse", k |-> 0], [n |-> "any", k |-> 0], [n |-> "all", k |-> 0], [n |-> "@json", k |-> 0], [n |-> "@text", k |-> 0],
-  \* one child
-  [n |-> "neg", k |-> 1], [n |-> "opt", k |-> 1], [n |-> "arr", k |-> 1], [n |-> "obj_val", k |-> 1], [n |-> "obj_key", k |-> 1], [n |-> "index", k |-> 1], [n |-> "slice_from", k |-> 1], [n |-> "slice_to", k |-> 1],
-  [n |-> "sfx_iter", k |-> 1], [n |-> "sfx_a", k |-> 1], [n |-> "sfx_0", k |-> 1], [n |-> "try", k |-> 1], [n |-> "paren", k |-> 1], [n |-> "interp", k |-> 1], [n |-> "json_interp", k |-> 1],
-  [n |-> "path", k |-> 1], [n |-> "getpath", k |-> 1], [n |-> "has", k |-> 1], [n |-> "map", k |-> 1], [n |-> "select", k |-> 1], [n |-> "error1", k |-> 1], [n |-> "range1", k |-> 1],
-  [n |-> "with_entries", k |-> 1], [n |-> "split", k |-> 1], [n |-> "ltrimstr", k |-> 1], [n |-> "rtrimstr", k |-> 1], [n |-> "startswith", k |-> 1], [n |-> "endswith", k |-> 1], [n |-> "join", k |-> 1],
-  [n |-> "sort_by", k |-> 1], [n |-> "group_by", k |-> 1], [n |-> "unique_by", k |-> 1], [n |-> "min_by", k |-> 1], [n |-> "max_by", k |-> 1],
-  [n |-> "first1", k |-> 1], [n |-> "last1", k |-> 1], [n |-> "recurse1", k |-> 1], [n |-> "debug1", k |-> 1], [n |-> "paths1", k |-> 1], [n |-> "add1", k |-> 1], [n |-> "any1", k |-> 1], [n |-> "all1", k |-> 1],
-  [n |-> "isempty", k |-> 1], [n |-> "def0", k |-> 1], [n |-> "def_rec", k |-> 1], [n |-> "label", k |-> 1], [n |-> "label_break", k |-> 1], [n |-> "in", k |-> 1],
-  \* two children
-  [n |-> "|", k |-> 2], [n |-> ",", k |-> 2], [n |-> "+", k |-> 2], [n |-> "-", k |-> 2], [n |-> "*", k |-> 2], [n |-> "/", k |-> 2], [n |-> "%", k |-> 2],
-  [n |-> "==", k |-> 2], [n |-> "!=", k |-> 2], [n |-> "<", k |-> 2], [n |-> "<=", k |-> 2], [n |-> ">", k |-> 2], [n |-> ">=", k |-> 2], [n |-> "and", k |-> 2], [n |-> "or", k |-> 2], [n |-> "//", k |-> 2],
-  [n |-> "trycatch", k |-> 2], [n |-> "as", k |-> 2], [n |-> "as_arr", k |-> 2], [n |-> "as_obj", k |-> 2], [n |-> "as_alt", k |-> 2], [n |-> "obj2", k |-> 2], [n |-> "obj_kq", k |-> 2], [n |-> "arr2", k |-> 2],
-  [n |-> "slice", k |-> 2], [n |-> "sfx_index", k |-> 2], [n |-> "range2", k |-> 2], [n |-> "limit", k |-> 2], [n |-> "until", k |-> 2], [n |-> "while", k |-> 2], [n |-> "if2", k |-> 2],
-  [n |-> "reduce2", k |-> 2], [n |-> "foreach2", k |-> 2], [n |-> "def_f", k |-> 2], [n |-> "def_v", k |-> 2], [n |-> "recurse2", k |-> 2], [n |-> "any2", k |-> 2], [n |-> "all2", k |-> 2],
-  \* three and more
-  [n |-> "if3", k |-> 3], [n |-> "ifelif", k |-> 5], [n |-> "reduce", k |-> 3], [n |-> "foreach", k |-> 3], [n |-> "foreach3", k |-> 4], [n |-> "range3", k |-> 3], [n |-> "def_fg", k |-> 3]
->>
-Idx(n) == CHOOSE i \in 1 .. Len(Cons) : Cons[i].n = n
-TermSfx(q, s) == AddSuffix(AsTermQ(q), s)
-
-Mk(n, k) ==
-  CASE n = "." -> Ident [] n = ".." -> RecurseQ [] n = "null" -> NullQ [] n = "true" -> TrueQ [] n = "false" -> FalseQ
-    [] n = "0" -> N("0") [] n = "1" -> N("1") [] n = "2" -> N("2") [] n = "-1" -> NegQ(N("1"))
-    [] n = "\"\"" -> ST("") [] n = "\"a\"" -> ST("a") [] n = "\"ab\"" -> ST("ab") [] n = "[]" -> EmptyArrQ [] n = "{}" -> ObjQ(<<>>)
-    [] n = ".a" -> Fa [] n = ".b" -> FieldQ("b") [] n = ".a?" -> OptQ(Fa) [] n = ".\"a\"" -> FieldStrQ("a")
-    [] n = ".[0]" -> IndexQ(N("0")) [] n = ".[-1]" -> IndexQ(NegQ(N("1"))) [] n = ".[]" -> IterAll [] n = ".[]?" -> IterOptQ
-    [] n = ".[1:]" -> SliceQ(N("1"), N("1"), TRUE, FALSE) [] n = ".[:1]" -> SliceQ(N("1"), N("1"), FALSE, TRUE)
-    [] n = ".a.b" -> AddSuffix(Fa, SIndexName("b")) [] n = ".a[]" -> AddSuffix(Fa, SIter) [] n = "{a}" -> ObjQ(<<[key |-> "a"]>>)
-    [] n = "error" -> F0("error") [] n = "@json" -> FormatQ("@json") [] n = "@text" -> FormatQ("@text")
-    [] n \in {"empty", "not", "length", "keys", "type", "add", "tostring", "tojson", "fromjson", "explode", "implode", "to_entries", "from_entries",
-              "sort", "unique", "min", "max", "first", "last", "paths", "input", "inputs", "debug", "stderr", "recurse", "values", "reverse", "any", "all"} -> F0(n)
-    [] n = "neg" -> NegQ(k[1]) [] n = "opt" -> OptQ(k[1]) [] n = "arr" -> ArrQ(k[1])
-    [] n = "obj_val" -> ObjQ(<<KV("a", k[1])>>) [] n = "obj_key" -> ObjQ(<<KVQ(k[1], N("1"))>>)
-    [] n = "index" -> IndexQ(k[1]) [] n = "slice_from" -> SliceQ(k[1], k[1], TRUE, FALSE) [] n = "slice_to" -> SliceQ(k[1], k[1], FALSE, TRUE)
-    [] n = "sfx_iter" -> TermSfx(k[1], SIter) [] n = "sfx_a" -> TermSfx(k[1], SIndexName("a")) [] n = "sfx_0" -> TermSfx(k[1], SIndexQ(N("0")))
-    [] n = "try" -> TryQ(k[1]) [] n = "paren" -> Paren(k[1])
-    [] n = "interp" -> InterpQ(<<ST("a"), Paren(k[1]), ST("b")>>)
-    [] n = "json_interp" -> FormatStrQ("@json", [queries |-> <<ST("a"), Paren(k[1])>>])
-    [] n = "path" -> F1("path", k[1]) [] n = "getpath" -> F1("getpath", k[1]) [] n = "has" -> F1("has", k[1]) [] n = "map" -> F1("map", k[1])
-    [] n = "select" -> F1("select", k[1]) [] n = "error1" -> F1("error", k[1]) [] n = "range1" -> F1("range", k[1])
-    [] n \in {"with_entries", "split", "ltrimstr", "rtrimstr", "startswith", "endswith", "join", "sort_by", "group_by", "unique_by", "min_by", "max_by", "isempty", "in"} -> F1(n, k[1])
-    [] n = "first1" -> F1("first", k[1]) [] n = "last1" -> F1("last", k[1]) [] n = "recurse1" -> F1("recurse", k[1]) [] n = "debug1" -> F1("debug", k[1])
-    [] n = "paths1" -> F1("paths", k[1]) [] n = "add1" -> F1("add", k[1]) [] n = "any1" -> F1("any", k[1]) [] n = "all1" -> F1("all", k[1])
-    [] n = "def0" -> DefQ(FDef("f", <<>>, k[1]), Comma(F0("f"), Pipe(F0("f"), F0("f"))))
-    [] n = "def_rec" -> DefQ(FDef("f", <<>>, IfQ(Bin("<", F0("length"), N("2")), Pipe(k[1], Pipe(ArrQ(Comma(Ident, Ident)), F0("f"))), Ident)), F0("f"))
-    [] n = "label" -> LabelQ("$l", k[1]) [] n = "label_break" -> LabelQ("$l", Comma(k[1], Comma(BreakQ("$l"), N("2"))))
-    [] n \in {"|", ",", "+", "-", "*", "/", "%", "==", "!=", "<", "<=", ">", ">=", "and", "or", "//"} -> Bin(n, k[1], k[2])
-    [] n = "trycatch" -> TryCatchQ(k[1], k[2])
-    [] n = "as" -> BindQ(k[1], <<PVar("$x")>>, k[2])
-    [] n = "as_arr" -> BindQ(k[1], <<PArr(<<PVar("$x"), PVar("$y")>>)>>, k[2])
-    [] n = "as_obj" -> BindQ(k[1], <<PObj(<<[key |-> "a", val |-> PVar("$x")], [key_string |-> [str |-> "b"], val |-> PArr(<<PVar("$y")>>)]>>)>>, k[2])
-    [] n = "as_alt" -> BindQ(k[1], <<PArr(<<PVar("$x")>>), PVar("$x")>>, k[2])
-    [] n = "obj2" -> ObjQ(<<KV("a", k[1]), KV("b", k[2])>>) [] n = "obj_kq" -> ObjQ(<<KVQ(k[1], k[2])>>) [] n = "arr2" -> ArrQ(Comma(k[1], k[2]))
-    [] n = "slice" -> SliceQ(k[1], k[2], TRUE, TRUE) [] n = "sfx_index" -> TermSfx(k[1], SIndexQ(k[2]))
-    [] n = "range2" -> F2("range", k[1], k[2]) [] n = "limit" -> F2("limit", k[1], k[2]) [] n = "until" -> F2("until", k[1], k[2]) [] n = "while" -> F2("while", k[1], k[2])
-    [] n = "recurse2" -> F2("recurse", k[1], k[2]) [] n = "any2" -> F2("any", k[1], k[2]) [] n = "all2" -> F2("all", k[1], k[2])
-    [] n = "if2" -> If2Q(k[1], k[2]) [] n = "if3" -> IfQ(k[1], k[2], k[3]) [] n = "ifelif" -> IfElifQ(k[1], k[2], k[3], k[4], k[5])
-    [] n = "reduce2" -> ReduceQ(k[1], PVar("$x"), N("0"), k[2]) [] n = "foreach2" -> ForeachQ(k[1], PVar("$x"), N("0"), k[2])
-    [] n = "reduce" -> ReduceQ(k[1], PVar("$x"), k[2], k[3]) [] n = "foreach" -> ForeachQ(k[1], PVar("$x"), k[2], k[3])
-    [] n = "foreach3" -> Foreach3Q(k[1], PArr(<<PVar("$x")>>), k[2], k[3], k[4])
-    [] n = "range3" -> FuncQ("range", <<k[1], k[2], k[3]>>)
-    [] n = "def_f" -> DefQ(FDef("f", <<"g">>, k[1]), F1("f", k[2]))
-    [] n = "def_v" -> DefQ(FDef("f", <<"$a">>, k[1]), F1("f", k[2]))
-    [] n = "def_fg" -> DefQ(FDef("f", <<"g", "$a">>, k[1]), F2("f", k[2], k[3]))
-
-(* default child for position i of construct n: small, closed, and chosen so that the construct is exercised *)
-Dflt(n, i) ==
-  CASE n \in {"has", "split", "ltrimstr", "rtrimstr", "startswith", "endswith", "error1", "in"} -> IF n = "in" THEN ObjQ(<<KV("a", N("1"))>>) ELSE ST("a")
-    [] n = "join" -> ST(", ")
-    [] n \in {"index", "slice_from", "slice_to"} -> N("1")
-    [] n = "obj_key" -> ST("a") [] n = "obj_kq" -> IF i = 1 THEN ST("a") ELSE Fa
-    [] n = "getpath" -> ArrQ(Comma(ST("a"), N("0")))
-    [] n \in {"range1"} -> N("2") [] n = "range2" -> IF i = 1 THEN N("0") ELSE N("2") [] n = "range3" -> IF i = 1 THEN N("0") ELSE IF i = 2 THEN N("3") ELSE N("2")
-    [] n = "limit" -> IF i = 1 THEN N("1") ELSE IterAll
-    [] n = "until" -> IF i = 1 THEN Bin(">", Ident, N("1")) ELSE Plus1
-    [] n = "while" -> IF i = 1 THEN Bin("<", Ident, N("2")) ELSE Plus1
-    [] n \in {"recurse1"} -> IterOptQ [] n = "recurse2" -> IF i = 1 THEN IterOptQ ELSE Bin("!=", Ident, N("1"))
-    [] n \in {"map", "with_entries"} -> IF n = "map" THEN Plus1 ELSE Ident
-    [] n \in {"select", "any1", "all1"} -> Bin("==", Ident, N("1")) [] n \in {"any2", "all2"} -> IF i = 1 THEN IterAll ELSE Bin("==", Ident, N("1"))
-    [] n \in {"sort_by", "group_by", "unique_by", "min_by", "max_by"} -> Fa
-    [] n \in {"first1", "last1", "isempty", "add1", "path", "paths1"} -> IF n = "paths1" THEN Bin("==", F0("type"), ST("x")) ELSE IterAll
-    [] n = "debug1" -> ST("x")
-    [] n \in {"slice"} -> IF i = 1 THEN N("0") ELSE N("1") [] n = "sfx_index" -> IF i = 1 THEN Ident ELSE N("0")
-    [] n \in {"as", "as_arr", "as_obj", "as_alt"} -> IF i = 1 THEN Ident ELSE ArrQ(Comma(X, Ident))
-    [] n \in {"reduce2", "foreach2"} -> IF i = 1 THEN IterAll ELSE Bin("+", Ident, X)
-    [] n \in {"reduce", "foreach"} -> IF i = 1 THEN IterAll ELSE IF i = 2 THEN N("0") ELSE Bin("+", Ident, X)
-    [] n = "foreach3" -> IF i = 1 THEN IterAll ELSE IF i = 2 THEN N("0") ELSE IF i = 3 THEN Bin("+", Ident, N("1")) ELSE ArrQ(Comma(X, Ident))
-    [] n = "def_f" -> IF i = 1 THEN ArrQ(Comma(F0("g"), Pipe(F0("g"), F0("g")))) ELSE Plus1
-    [] n = "def_v" -> IF i = 1 THEN ArrQ(Comma(VarQ("$a"), Ident)) ELSE IterAll
-    [] n = "def_fg" -> IF i = 1 THEN ArrQ(Comma(VarQ("$a"), F0("g"))) ELSE IF i = 2 THEN Plus1 ELSE N("2")
-    [] n \in {"if2", "if3", "ifelif"} -> IF i = 1 THEN Ident ELSE IF i = 2 THEN N("1") ELSE IF i = 3 THEN (IF n = "if3" THEN N("2") ELSE Fa) ELSE IF i = 4 THEN N("2") ELSE N("3")
-    [] n = "trycatch" -> IF i = 1 THEN F0("error") ELSE ArrQ(Ident)
-    [] n \in {"and", "or", "//", ",", "==", "!=", "<", "<=", ">", ">="} -> IF i = 1 THEN Ident ELSE N("1")
-    [] n \in {"+", "-", "*", "/", "%"} -> IF i = 1 THEN Ident ELSE IF n \in {"/", "%"} THEN N("2") ELSE N("1")
-    [] n = "|" -> IF i = 1 THEN Ident ELSE Plus1
-    [] n \in {"obj2", "arr2"} -> IF i = 1 THEN Ident ELSE N("1")
-    [] n \in {"def_rec"} -> Plus1
-    [] OTHER -> Ident
-Kids(n) == [i \in 1 .. Cons[Idx(n)].k |-> Dflt(n, i)]
-Base(n) == Mk(n, Kids(n))
-Prog(o, p, i) == IF p = 0 THEN Base(Cons[o].n)
-                 ELSE Mk(Cons[o].n, [j \in 1 .. Cons[o].k |-> IF j = p THEN Base(Cons[i].n) ELSE Dflt(Cons[o].n, j)])
 
 NInputs == Len(Inputs)
 InSel(o, p, i) == IF NIn = 0 THEN 1 .. NInputs ELSE {1 + ((o * 31 + p * 17 + i * 13 + Rot + j * 7) % NInputs) : j \in 0 .. (NIn - 1)}
-Init == c \in {[o |-> o, p |-> p, i |-> i, x |-> x] : o \in {y \in 1 .. Len(Cons) : y % NShards = Shard}, p \in 0 .. 5, i \in 1 .. Len(Cons), x \in 1 .. NInputs}
-        /\ c.p <= Cons[c.o].k /\ (c.p = 0 => c.i = 1) /\ c.x \in InSel(c.o, c.p, c.i)
+Sampled(o, p, i) == Div = 1 \/ (o * 131 + p * 31 + i) % Div = Rot % Div
+Triples == UNION {UNION {{[o |-> o, p |-> p, i |-> i] : i \in IF p = 0 THEN {1} ELSE {j \in 1 .. Len(Cons) : Sampled(o, p, j)}} :
+                         p \in 0 .. Cons[o].k} : o \in {y \in 1 .. Len(Cons) : y % NShards = Shard}}
+Cases == UNION {{[o |-> t.o, p |-> t.p, i |-> t.i, x |-> x] : x \in InSel(t.o, t.p, t.i)} : t \in Triples}
+
+EmitC(cc) == LET raw == Prog(cc.o, cc.p, cc.i)
+                 ast == Min(raw)
+                 r == Run(ast, Inputs[cc.x], InputList, GenLit) IN
+             PrintT(ToJson([id |-> <<Cons[cc.o].n, ToString(cc.p), IF cc.p = 0 THEN "" ELSE Cons[cc.i].n>>,
+                            prog |-> PrintQ(Full(raw)), ast |-> ast, input |-> Inputs[cc.x], inputs |-> InputList,
+                            out |-> r.out, side |-> r.side, core |-> r.core]))
+(* Emission happens while TLC checks this assumption: constant-level evaluation caches operator arguments, which makes the *)
+(* recursive evaluator some 50 times faster than inside a state predicate.  The behaviour spec is a single idle state.     *)
+ASSUME \A cc \in Cases : EmitC(cc)
+Init == c = 0
 Next == FALSE /\ c' = c
 Spec == Init /\ [][Next]_c
-
-Emit == LET raw == Prog(c.o, c.p, c.i)
-            ast == Min(raw)
-            r == Run(ast, Inputs[c.x], InputList, GenLit) IN
-        PrintT(ToJson([id |-> <<Cons[c.o].n, ToString(c.p), IF c.p = 0 THEN "" ELSE Cons[c.i].n>>,
-                       prog |-> PrintQ(Full(raw)), ast |-> ast, input |-> Inputs[c.x], inputs |-> InputList,
-                       out |-> r.out, side |-> r.side, core |-> r.core]))
 =============================================================================
